@@ -802,6 +802,15 @@ func Run(pfx []int8, msk []uint32, seen *keySet, prune bool, body func()) *Resul
 //go:norace
 func setActive(v bool) { active = v }
 
+// execID numbers the executions of this process (state that must not leak from one execution into the next, such as
+// the contents of a sync.Pool, is keyed by it).
+var execID uint64
+
+// ExecID returns the number of the current execution.
+//
+//go:norace
+func ExecID() uint64 { return execID }
+
 // soloSteps counts the scheduling points passed on the single-thread fast path of the current execution; beyond
 // soloMax the full path (with its step horizon) takes over, so that an endless loop still ends.
 var soloSteps int64
@@ -810,6 +819,7 @@ const soloMax = 1 << 26
 
 //go:norace
 func resetExec() {
+	execID++
 	soloSteps = 0
 	active = false
 	aborting = false
